@@ -50,6 +50,8 @@ def plan(tier, seed, scale=1.0):
 
 def gen_program(rng):
     w = rng.random()
+    if w > 0.93:
+        return rng.choice(RAW_SHAPES), 8, "raw"
     if w < 0.45:
         for _ in range(50):
             prog = layout.generate(rng, "disjoint", max_units=12, max_subs=3)
@@ -78,8 +80,24 @@ def gen_program(rng):
     return c["prog"], c["version"], "fragment"
 
 
+RAW_SHAPES = [
+    "int 1\n",                                                  # no pragma: version 1
+    "txn Fee\nint 1000\n<=\n",                                   # v1, falls off the end
+    "#pragma version 2\ntxn Fee\nint 1000\n<=\nbnz ok\nerr\nok:\nint 1\nreturn\n",
+    "#pragma version 3\ntxn RekeyTo\nglobal ZeroAddress\n==\nassert\nint 1\nreturn\n",
+    "#pragma version 8\n// only a comment\n\nint 1\n// trailing comment\n",
+    "#pragma version 8\nint 1\nreturn\nunreachable:\nb unreachable\n",
+    "#pragma version 8\nb end\ndead1:\nint 1\nbnz dead2\ndead2:\ncallsub helper\nend:\nint 1\nreturn\nhelper:\nretsub\n",
+    "#pragma version 8\nbyte base64 AA//BB==\nlen\nreturn\n",
+    "#pragma version 6\nmethod \"f()void\"\ntxna ApplicationArgs 0\n==\nreturn\n",
+]
+
+
 def one_program(prog, version, kind, rng, ctr, viols, nontrivial, tier, do_sub):
-    src, _ = T.render(prog, version)
+    if isinstance(prog, str):
+        src, prog = prog, [("int", 1)]
+    else:
+        src, _ = T.render(prog, version)
     d = cli.scratch()
     try:
         with open(os.path.join(d, "c.teal"), "w") as f:
@@ -137,7 +155,7 @@ def run_batch(spec):
             ctr["case_watchdog_fired"] += 1
         finally:
             signal.alarm(0)
-        if len(out["samples"]) < 1 and kind == "layout" and len(prog) < 40:
+        if len(out["samples"]) < 1 and kind == "layout" and not isinstance(prog, str) and len(prog) < 40:
             out["samples"].append({"gen": kind, "src": T.render(prog, version)[0], "modes": [m for m, _ in MODES]})
     seen = {}
     for v in viols:
